@@ -58,6 +58,20 @@ CHECKS["C08"] = dict(
          "minimal, latent-free), get_ancestral_graph, moralize, BayesianNetwork and NaiveBayes overrides against the same oracle.",
     note="Bounds: n<=4 (lemma/eager 5 in thorough). In eager mode the graph dimension is enumeration, not solver reasoning (DESIGN.md 3.5).",
     ref="5/C08")
+CHECKS["C12"] = dict(
+    text="The real PC.build_skeleton / skeleton_to_pdag / estimate (orig, stable, parallel with n_jobs=1; skeleton, pdag, dag) run with a conditional-"
+         "independence oracle that answers by d-separation in an UNKNOWN acyclic graph whose edges are z3 Booleans; execution forks only on the answers, "
+         "so paths are CI-answer patterns, and on each path z3 proves over ALL consistent graphs: skeleton = adjacency, recorded separating sets "
+         "d-separate, every directed PDAG edge is compelled, every undirected edge is reversible (two sat queries), no directed cycle; a returned DAG "
+         "satisfies every answer. The independencies= entry point and PDAG.to_dag (z3-decided extendability, brute-force cross-check) are explored eagerly.",
+    note="Bounds: n<=4 (5 in thorough), max_cond_vars=n, hash seeds 0,1; statistical CI tests are outside (C19).", ref="5/C12")
+CHECKS["C18"] = dict(
+    text="(a) is_iequivalent/get_immoralities on all pairs of 3-node DAGs and same-skeleton 4-node pairs against skeleton+v-structures (cross-checked with "
+         "the d-separation oracle); (b) Independencies.closure/entails/is_equivalent against the least model of a Horn-clause encoding of the semi-graphoid "
+         "axioms, one z3 entailment query per candidate statement; (c) JointProbabilityDistribution.check_independence/get_independencies/is_imap/"
+         "minimal_imap on symbolic joints (generic and product-form), the code's tolerance tests forking on numpy's exact formula.",
+    note="Bounds: n<=4 DAGs, <=2 (3) assertions over <=4 variables, 2x2x2 joints. Two known findings (closure contraction rule, minimal_imap) are "
+         "recognised precisely and listed in known_findings.txt.", ref="5/C18")
 
 NOT_APPLICABLE = {
     "C19": "statistic, dof and p-value are produced inside pandas.groupby / numpy.bincount / scipy.stats.chi2_contingency / chi2.cdf "
